@@ -1,6 +1,6 @@
 (* C18 - debug and quiet options change what is printed, never what is simulated. *)
 From HclV Require Import Base Expr Disasm DisasmProofs Machine MachineSpec MachineProofs DumpSpec DumpProofs Build TableSpec TableProofs.
-From HclV Require TraceSpec TraceProofs.
+From HclV Require TraceSpec TraceProofs OutputSpec OutputProofs.
 Open Scope string_scope.
 Open Scope N_scope.
 
@@ -111,3 +111,57 @@ Print Assumptions C18_component_messages_report_what_was_used.
 Theorem C18_one_message_per_action : TraceSpec.stmt_cycle_messages.
 Proof. exact TraceProofs.cycle_messages_holds. Qed.
 Print Assumptions C18_one_message_per_action.
+
+(* ---- "options change what is printed": HOW (OutputSpec.v / OutputProofs.v) --------------------- *)
+(* everything the simulator prints consists of whole lines; the command-line flags decide each
+   output switch independently (main.rs applies them in one fixed order); and with more switches
+   on (same table form, same timeout) the run reaches the same state and prints the lines of the
+   smaller run in the same order, plus further lines - per action, per cycle, for a whole run and
+   for the run followed by the final dump *)
+Theorem C18_output_is_whole_lines : OutputSpec.stmt_output_is_lines.
+Proof. exact OutputProofs.output_is_lines_holds. Qed.
+Print Assumptions C18_output_is_whole_lines.
+Theorem C18_flags_decide_switches :
+  OutputSpec.stmt_opts_of_flags_fields /\ OutputSpec.stmt_flags_order /\ OutputSpec.stmt_setters_order /\
+  OutputSpec.stmt_quiet_debug_do_not_commute.
+Proof.
+  split; [exact OutputProofs.opts_of_flags_fields_holds |].
+  split; [exact OutputProofs.flags_order_holds |].
+  split; [exact OutputProofs.setters_order_holds |].
+  exact OutputProofs.quiet_debug_do_not_commute_holds.
+Qed.
+Print Assumptions C18_flags_decide_switches.
+Theorem C18_more_options_only_add_lines :
+  OutputSpec.stmt_action_output_monotone /\ OutputSpec.stmt_step_output_monotone /\
+  OutputSpec.stmt_run_output_monotone /\ OutputSpec.stmt_run_output_monotone_typed /\
+  OutputSpec.stmt_session_flags_monotone /\ OutputSpec.stmt_run_cycles_aligned.
+Proof.
+  split; [exact OutputProofs.action_output_monotone_holds |].
+  split; [exact OutputProofs.step_output_monotone_holds |].
+  split; [exact OutputProofs.run_output_monotone_holds |].
+  split; [exact OutputProofs.run_output_monotone_typed_holds |].
+  split; [exact OutputProofs.session_flags_monotone_holds |].
+  exact OutputProofs.run_cycles_aligned_holds.
+Qed.
+Print Assumptions C18_more_options_only_add_lines.
+(* -q removes exactly the per-cycle dumps; -t removes exactly the register-bank lines of every dump *)
+Theorem C18_quiet_and_test_remove_exactly :
+  OutputSpec.stmt_quiet_cycles /\ OutputSpec.stmt_test_dump_lines /\ OutputSpec.stmt_test_dump_same.
+Proof.
+  split; [exact OutputProofs.quiet_cycles_holds |].
+  split; [exact OutputProofs.test_dump_lines_holds |].
+  exact OutputProofs.test_dump_same_holds.
+Qed.
+Print Assumptions C18_quiet_and_test_remove_exactly.
+(* grouped and ungrouped -d tables, line by line; same rows when no name/value is over-wide; the
+   unrestricted draft and "one form is a sub-sequence of the other" are refuted *)
+Theorem C18_table_forms_line_by_line :
+  OutputSpec.stmt_table_forms_lines /\ OutputSpec.stmt_table_forms_same_rows /\
+  ~ OutputSpec.stmt_table_forms_same_rows_draft /\ ~ OutputSpec.stmt_ungroup_fewer_lines_draft.
+Proof.
+  split; [exact OutputProofs.table_forms_lines_holds |].
+  split; [exact OutputProofs.table_forms_same_rows_holds |].
+  split; [exact OutputProofs.table_forms_same_rows_draft_refuted |].
+  exact OutputProofs.ungroup_fewer_lines_draft_refuted.
+Qed.
+Print Assumptions C18_table_forms_line_by_line.
